@@ -80,9 +80,16 @@ pub fn check_state(cx: &mut CaseCx, g: &GGM, path: &[u8], baseline: &[Option<[u8
       }
     };
     probe(cx, "eval of an empty input", &|c| c.eval(&[], &mut [0u8; 32]).is_ok());
-    probe(cx, "eval of a 2-byte input", &|c| c.eval(&[0, 1], &mut [0u8; 32]).is_ok());
     probe(cx, "puncture of an empty input", &|c| c.puncture(&[]).is_ok());
-    probe(cx, "puncture of a 2-byte input", &|c| c.puncture(&[7, 7]).is_ok());
+    // wrong lengths incl. 1 mod 32 bytes (bit length 8 mod 256) and 1 mod 2^k; first byte = an unpunctured input if any
+    let live = (0..=255u8).find(|x| !p.has(*x)).unwrap_or(0);
+    for len in [2usize, 3, 8, 31, 32, 33, 64, 65, 129, 257, 513] {
+      let mut inp = vec![live; len];
+      inp[len - 1] ^= 0x5a;
+      let i2 = inp.clone();
+      probe(cx, &format!("eval of a {}-byte input", len), &move |c| c.eval(&i2, &mut [0u8; 32]).is_ok());
+      probe(cx, &format!("puncture of a {}-byte input", len), &move |c| c.puncture(&inp).is_ok());
+    }
     for &x in path {
       probe(cx, &format!("re-puncture of the already punctured input {}", x), &move |c| c.puncture(&[x]).is_ok());
     }
@@ -120,6 +127,7 @@ fn run_subsets(cx: &mut CaseCx, case: &Value) {
   let dom2 = dom.clone();
   let bl = baseline.clone();
   let bl2 = baseline.clone();
+  let bl3 = baseline.clone();
   let mut deepest: Vec<Vec<u8>> = vec![];
   let stats = bfs(
     cx,
@@ -137,6 +145,31 @@ fn run_subsets(cx: &mut CaseCx, case: &Value) {
           Ok(true) if !already => {
             let mut path = st.path.clone();
             path.push(x);
+            // evaluations must not leave state behind: evaluate z, puncture x, evaluate z FIRST afterwards
+            let before = pset(&st.path);
+            let mut probes: Vec<u8> = if dom.len() <= 8 { dom.clone() } else { vec![x, dom[0], dom[dom.len() - 1]] };
+            probes.extend([x ^ 0x80, x ^ 0x01, x ^ 0x40, x.wrapping_add(1)]);
+            for z in probes {
+              let mut g2 = st.g.clone();
+              let mut o1 = [0u8; 32];
+              let r1 = g2.eval(&[z], &mut o1).is_ok();
+              if g2.puncture(&[x]).is_err() {
+                continue;
+              }
+              let mut o2 = [0u8; 32];
+              let r2 = guard(|| g2.eval(&[z], &mut o2).is_ok()).unwrap_or(true);
+              sc.eval();
+              let should = !before.has(z) && z != x;
+              if r2 != should || (r2 && Some(o2) != bl3[z as usize]) || (r1 && Some(o1) != bl3[z as usize]) {
+                sc.viol(
+                  "C10/evaluation-changes-state",
+                  format!("input {} was evaluated right before puncturing {} and first thing after it: it {} (value {}), the model says it must {}", z, x, if r2 { "evaluates" } else { "is refused" }, if Some(o2) == bl3[z as usize] { "unchanged" } else { "CHANGED" }, if should { "evaluate to its original value" } else { "be refused" }),
+                  json!({"punctured_in_order": st.path, "evaluate": z, "then_puncture": x, "then_evaluate": z}),
+                );
+                break;
+              }
+              sc.count("interleaved_probes", 1);
+            }
             succ.push((mask | 1 << i, St { g: c, path }));
           }
           Ok(false) if already => sc.count("refused_repunctures", 1),
@@ -310,7 +343,7 @@ pub fn spec() -> PropSpec {
     checks: vec![
       Check {
         name: "subsets-bfs",
-        rule: "explicit-state BFS: state = real GGM, transition = one real puncture of a domain input (refused re-punctures included), digest = punctured set with merge check on sorted retained nodes; invariant in every state over ALL 256 inputs: eval fails iff punctured else equals the fresh-key value; wrong-length eval/puncture and re-puncture of every punctured input refused without changing the key; non-trivial = distinct punctured sets",
+        rule: "explicit-state BFS: state = real GGM, transition = one real puncture of a domain input (refused re-punctures included), digest = punctured set with merge check on sorted retained nodes; invariant in every state over ALL 256 inputs: eval fails iff punctured else equals the fresh-key value; wrong-length eval/puncture (0,2,3,8,31,32,33,64,65,129,257,513 bytes) and re-puncture of every punctured input refused without changing the key; for every transition: evaluate z, puncture x, evaluate z first (z over the domain and neighbours of x) - evaluations must not leave state behind; non-trivial = distinct punctured sets",
         gen: |tier| if tier.thorough() { (0..8).map(|d| json!({"domain": d})).collect() } else { (4..8).map(|d| json!({"domain": d})).collect() },
         run: run_subsets,
         min_counts: &[("states", 1000), ("refused_repunctures", 1000), ("merges", 1000), ("traces_validated", 4)],
